@@ -6,18 +6,24 @@ use lopdf::{Document, Object};
 use lopdf_conform::{gen, guard::guarded, io::*, rng::Rng, wire::*};
 use serde_json::{json, Value};
 
+/// direct, non-stream object suitable as a member of an object stream
+fn compressible(o: &Object) -> bool {
+    !matches!(o, Object::Stream(_) | Object::Reference(_) | Object::Integer(_) | Object::Real(_) | Object::Null | Object::Boolean(_))
+}
+
 fn docs(args: &[String]) {
     let seed = arg_u64(args, "--seed", 1);
     let n = arg_u64(args, "--n", 40);
     let max_objects = arg_u64(args, "--max-objects", 6) as usize;
+    let max_revs = arg_u64(args, "--max-revs", 1) as usize;
     let mut out = NdjsonOut::create(&arg(args, "--out").unwrap());
     let mut rng = Rng::new(seed ^ 0xC02);
     for i in 0..n {
         let mut doc = gen::random_document(&mut rng, max_objects, i % 3 != 0, false);
-        // the header line must be a comment the reader can delimit: keep versions printable
         // indirect stream lengths: for some streams, Length becomes a reference to a new integer object
         let stream_ids: Vec<_> = doc.objects.iter().filter(|(_, o)| matches!(o, Object::Stream(_))).map(|(id, _)| *id).collect();
         let mut next = doc.objects.keys().map(|k| k.0).max().unwrap_or(0);
+        let mut length_objs: Vec<(u32, u16)> = vec![];
         for id in stream_ids {
             let content_has_kw = {
                 let s = doc.objects[&id].as_stream().unwrap();
@@ -27,6 +33,7 @@ fn docs(args: &[String]) {
                 next += 1;
                 let len = doc.objects[&id].as_stream().unwrap().content.len() as i64;
                 doc.objects.insert((next, 0), Object::Integer(len));
+                length_objs.push((next, 0));
                 if let Some(Object::Stream(s)) = doc.objects.get_mut(&id) {
                     s.dict.set("Length", Object::Reference((next, 0)));
                 }
@@ -34,13 +41,80 @@ fn docs(args: &[String]) {
                 s.dict.remove(b"Length");
             }
         }
-        // file-side projection
-        let objects: Vec<Value> = doc.objects.iter().map(|(id, o)| json!([id.0, id.1, obj_to_file_tla(o)])).collect();
+        // history: revision 1 = the document; each update replaces a random subset and adds objects
+        let nrevs = 1 + rng.below(max_revs);
+        let g = gen::DocGen { max_depth: 2, ids: doc.objects.keys().copied().collect(), hostile_names: i % 3 != 0, allow_big_reals: false };
+        let mut revs: Vec<Value> = vec![];
+        let mut live: Vec<(u32, u16)> = doc.objects.keys().copied().collect();
+        let mut current: Vec<((u32, u16), Object)> = doc.objects.iter().map(|(k, v)| (*k, v.clone())).collect();
+        let mut trailer = doc.trailer.clone();
+        for r in 0..nrevs {
+            if r > 0 {
+                current.clear();
+                // replace a random subset of live objects (keeping their generation), add 0-2 new ones
+                for id in live.clone() {
+                    // (a stream's Length object keeps its value: replacing it would make the file invalid)
+                    if rng.chance(1, 3) && !length_objs.contains(&id) {
+                        current.push((id, g.object(&mut rng, 0)));
+                    }
+                }
+                for _ in 0..rng.below(3) {
+                    next += 1;
+                    let id = (next, 0);
+                    live.push(id);
+                    current.push((id, if rng.chance(1, 4) { g.stream(&mut rng) } else { g.object(&mut rng, 0) }));
+                }
+                if current.is_empty() {
+                    // an update revision defines at least one object
+                    if live.is_empty() || rng.chance(1, 2) {
+                        next += 1;
+                        live.push((next, 0));
+                        current.push(((next, 0), g.object(&mut rng, 0)));
+                    } else {
+                        let cands: Vec<_> = live.iter().filter(|id| !length_objs.contains(id)).copied().collect();
+                        if cands.is_empty() {
+                            next += 1;
+                            live.push((next, 0));
+                            current.push(((next, 0), g.object(&mut rng, 0)));
+                        } else {
+                            let id = *rng.pick(&cands);
+                            current.push((id, g.object(&mut rng, 0)));
+                        }
+                    }
+                }
+                for (_, o) in current.iter_mut() {
+                    if let Object::Stream(s) = o {
+                        s.dict.remove(b"Length");
+                    }
+                }
+                if rng.chance(1, 2) && !live.is_empty() {
+                    trailer.set("Info", Object::Reference(*rng.pick(&live)));
+                }
+            }
+            // object streams: generation-0 containers/arrays/strings/names may be stored compressed
+            let mut plain: Vec<Value> = vec![];
+            let mut groups: Vec<Vec<Value>> = vec![vec![], vec![]];
+            for (id, o) in &current {
+                if id.1 == 0 && compressible(o) && rng.chance(1, 2) {
+                    let gidx = rng.below(2);
+                    groups[gidx].push(json!([id.0, obj_to_file_tla(o)]));
+                } else {
+                    plain.push(json!([id.0, id.1, obj_to_file_tla(o)]));
+                }
+            }
+            let mut comp: Vec<Value> = vec![];
+            for gmembers in groups {
+                if !gmembers.is_empty() {
+                    next += 1;
+                    comp.push(json!({"cnum": next, "members": gmembers}));
+                }
+            }
+            revs.push(json!({"objects": plain, "comp": comp, "trailer": dict_to_file_tla(&trailer)}));
+        }
         out.put(&json!({
             "version": bytes_to_json(doc.version.as_bytes()),
             "binmark": bytes_to_json(&[0xE2u8, 0xE3, 0xCF, 0xD3]),
-            "trailer": dict_to_file_tla(&doc.trailer),
-            "objects": objects,
+            "revs": revs,
         }));
     }
     out.finish();
@@ -50,12 +124,24 @@ fn load(args: &[String]) {
     let cases = read_ndjson(&arg(args, "--in").unwrap());
     let mut out = NdjsonOut::create(&arg(args, "--out").unwrap());
     for (i, c) in cases.iter().enumerate() {
-        let bytes = json_to_bytes(&c["bytes"]);
-        out.put(&json!({"ev": "File", "case": i, "bytes": c["bytes"], "knobs": {"xref": c["xref"], "w": c["w"], "order": c["order"], "junk": c["junk"], "doc": c["doc"]}}));
-        match guarded(|| Document::load_mem(&bytes)) {
-            Ok(Ok(d)) => out.put(&json!({"ev": "Load", "case": i, "res": "ok", "doc": doc_to_tla(&d)})),
-            Ok(Err(e)) => out.put(&json!({"ev": "Load", "case": i, "res": format!("err:{e:?}"), "doc": doc_to_tla(&Document::new())})),
-            Err(p) => out.put(&json!({"ev": "Load", "case": i, "res": format!("panic:{p}"), "doc": doc_to_tla(&Document::new())})),
+        let all = json_to_bytes(&c["bytes"]);
+        let knobs = json!({"xref": c["xref"], "w": c["w"], "order": c["order"], "junk": c["junk"], "doc": c["doc"],
+                           "nrevs": c["nrevs"], "ncomp": c["ncomp"], "redefined": c["redefined"]});
+        // the whole file, then (for histories) every prefix that ends at a revision boundary
+        let mut cuts: Vec<usize> = vec![all.len()];
+        if let Some(cs) = c["cuts"].as_array() {
+            for x in cs.iter().rev().skip(1) {
+                cuts.push(x.as_u64().unwrap() as usize);
+            }
+        }
+        for (pi, cut) in cuts.iter().enumerate() {
+            let bytes = &all[..*cut];
+            out.put(&json!({"ev": "File", "case": i, "prefix": pi, "bytes": bytes_to_json(bytes), "knobs": knobs}));
+            match guarded(|| Document::load_mem(bytes)) {
+                Ok(Ok(d)) => out.put(&json!({"ev": "Load", "case": i, "res": "ok", "doc": doc_to_tla(&d)})),
+                Ok(Err(e)) => out.put(&json!({"ev": "Load", "case": i, "res": format!("err:{e:?}"), "doc": doc_to_tla(&Document::new())})),
+                Err(p) => out.put(&json!({"ev": "Load", "case": i, "res": format!("panic:{p}"), "doc": doc_to_tla(&Document::new())})),
+            }
         }
     }
     out.finish();
